@@ -387,3 +387,104 @@ func ruleCovIdx(p *Prog, r *Report) {
 	r.Count("coverage_index_sources", nSrc)
 	r.Floor(rule, n, 10)
 }
+
+// ruleExtSan (part of R-COVIDX): the sanitizer pairs protect a subtable only if the loader applies them to the subtable
+// that the shaper will use. Extension subtables are replaced by the subtable they wrap (Resolve) before being stored; the
+// sanitizer dispatch must therefore look at the element AFTER that replacement: the value whose dynamic type selects the
+// Sanitize call must not be loaded before the call of Resolve in the same iteration.
+func ruleExtSan(p *Prog, r *Report) {
+	const rule = "R-COVIDX/resolved"
+	nFn, nCalls := 0, 0
+	for _, f := range p.ModFns() {
+		if fnPkg(f) == nil || fnPkg(f).Path() != p.pkgPath("font") {
+			continue
+		}
+		var resolves []*ssa.Call
+		var sanitizes []*ssa.Call
+		for _, b := range f.Blocks {
+			for _, in := range b.Instrs {
+				c, ok := in.(*ssa.Call)
+				if !ok {
+					continue
+				}
+				sc := c.Common().StaticCallee()
+				if sc == nil || sc.Signature.Recv() == nil || fnPkg(sc) == nil || fnPkg(sc).Path() != p.pkgPath("font/opentype/tables") {
+					continue
+				}
+				switch sc.Name() {
+				case "Resolve":
+					resolves = append(resolves, c)
+				case "Sanitize":
+					sanitizes = append(sanitizes, c)
+				}
+			}
+		}
+		if len(resolves) == 0 || len(sanitizes) == 0 {
+			continue
+		}
+		nFn++
+		for _, sc := range sanitizes {
+			nCalls++
+			key := fmt.Sprintf("%s/%s", p.FnName(f), p.FnName(sc.Common().StaticCallee()))
+			r.Instance(rule, key)
+			// the interface value whose dynamic type was tested: receiver <- (extract of) typeassert <- load
+			v := sc.Common().Args[0]
+			for i := 0; i < 6; i++ {
+				switch x := v.(type) {
+				case *ssa.Extract:
+					v = x.Tuple
+					continue
+				case *ssa.TypeAssert:
+					v = x.X
+					continue
+				case *ssa.UnOp:
+					if x.Op == token.MUL {
+						if al, ok := x.X.(*ssa.Alloc); ok {
+							// a spilled copy: follow the single store
+							if st := singleStore(al); st != nil {
+								v = st.Val
+								continue
+							}
+						}
+					}
+				case *ssa.MakeInterface:
+					v = x.X
+					continue
+				}
+				break
+			}
+			ld, isInstr := v.(ssa.Instruction)
+			ok := true
+			why := ""
+			if !isInstr {
+				ok, why = false, "the sanitized value is not read from the list of subtables"
+			} else {
+				for _, rc := range resolves {
+					before := ld.Block() == rc.Block() && instrIndex(ld) < instrIndex(rc) || ld.Block() != rc.Block() && ld.Block().Dominates(rc.Block())
+					if before {
+						ok = false
+						why = fmt.Sprintf("the subtable is read at %s, before the extension is resolved at %s: an extension-wrapped subtable is never sanitized", p.IPos(ld), p.IPos(rc))
+					}
+				}
+			}
+			r.Check(ok, rule, key, p.IPos(sc), "the sanitizer is dispatched on the subtable as it is after the resolution of extensions"+pref(why))
+		}
+	}
+	r.Floor(rule+"(functions)", nFn, 2)
+	r.Floor(rule, nCalls, 8)
+}
+
+func singleStore(al *ssa.Alloc) *ssa.Store {
+	var st *ssa.Store
+	if refs := al.Referrers(); refs != nil {
+		for _, in := range *refs {
+			if s, ok := in.(*ssa.Store); ok && s.Addr == ssa.Value(al) {
+				if st != nil {
+					return nil
+				}
+				st = s
+			}
+		}
+	}
+	return st
+}
